@@ -138,7 +138,9 @@ def tearfree_axis(ctx):
     if vm:
       wrapper, vargs = vm[0][0], vm[0][1]
       kw = dict(wrapper.args[1])
-      okv = path_str(kw.get('in_axes', NONE)) == 'meta.blocks_axis' and is_const(kw.get('out_axes', const(0)), 0) and \
+      ia = kw.get('in_axes', NONE)
+      ia_ok = path_str(ia) == 'meta.blocks_axis' or (ia.op in ('tuple', 'list') and len(ia.args) == 2 and all(path_str(x_) == 'meta.blocks_axis' for x_ in ia.args))
+      okv = ia_ok and is_const(kw.get('out_axes', const(0)), 0) and \
           len(vargs) == 2 and vargs[0] is U and vargs[1] is U
       why = f'vmap axes in={show(kw.get("in_axes", NONE), maxdepth=2)} out={show(kw.get("out_axes", NONE), maxdepth=2)}, operands {[show(a_, maxdepth=2) for a_ in vargs]}'
     ctx.ob('C08.R1', fstats.short, 'covariance via vmap(in_axes=blocks_axis, out_axes=0)', okv,
